@@ -499,6 +499,34 @@ func (x *SExec) apply(i int, op SOp) *Fail {
 				}
 			}
 		}
+	case "errio":
+		// a replica is marked failed and I/O follows at once, before the monitor
+		// goroutine has removed it (with pings on, a stalled ping keeps the
+		// monitor busy): a replica marked failed receives no further I/O
+		n := op.Node % len(st.Nodes)
+		if x.Mode[n] != types.RW && x.Mode[n] != types.WO {
+			return nil
+		}
+		if x.P.Pings {
+			st.Nodes[n].SetNext("ping", STALL)
+			time.Sleep(2*sPingEvery + 50*time.Millisecond)
+			x.Labels["errio:ping-in-flight"]++
+		}
+		err := c.SetReplicaMode(st.Nodes[n].Addr, types.ERR)
+		x.tracef("errio: setmode n%d ERR -> %v", n, err)
+		if err != nil {
+			st.Nodes[n].ClearFaults()
+			return sfail("setmode|error", err.Error(), "C18")
+		}
+		x.Mode[n] = types.ERR
+		x.Frozen[n] = st.Nodes[n].LogLen("write", "read", "sync", "unmap")
+		x.Labels["errio"]++
+		f := x.doWrite(i, SOp{K: "write", Off: op.Off, Len: op.Len, Seed: op.Seed})
+		if f == nil {
+			f = x.doWrite(i, SOp{K: "sync"})
+		}
+		st.Nodes[n].ClearFaults()
+		return f
 	case "setmode":
 		n := op.Node % len(st.Nodes)
 		addr := st.Nodes[n].Addr
